@@ -162,7 +162,13 @@ def bump(repo: Repo, chk: Check) -> None:
             align = s
         if isinstance(n, ast.Assign) and isinstance(n.targets[0], ast.Name) and all(depends_on(x_, "$_ - $_ % $_") for x_ in expand_per_alt(s, n.value)) and align is None:
             align = s
-    if init is None:
+    # the same initialisation as one expression: `address = self.current_addresses.setdefault(memory, memory.start)`
+    init_sd = None
+    for s in fl0.stmts(ast.Assign, ast.AnnAssign):
+        v_ = getattr(s.node, "value", None)
+        if s.reachable and v_ is not None and norm.match(T("self.current_addresses.setdefault($m, $v)"), v_) is not None:
+            init_sd = s
+    if init is None and init_sd is None:
         raise AnalysisError(f"{f.where}: bump-pointer initialisation not found")
     if store is None or align is None:
         what = "stores the advanced bump pointer back" if store is None else "rounds the address up to the alignment (`+= alignment - address % alignment`)"
@@ -200,12 +206,16 @@ def bump(repo: Repo, chk: Check) -> None:
                "misaligned addresses are rounded up by `alignment - address % alignment`",
                "the alignment step is not `if a % al != 0: a += al - a % al`: the address is not rounded up to the next multiple")
     init_if = None
-    for n in ast.walk(f.node):
-        if isinstance(n, ast.If) and not n.orelse and len(n.body) == 1 and n.body[0] is init.stmt and norm.match(
-                T("$m not in self.current_addresses"), norm.canon(n.test)) is not None:
-            init_if = n
-    if init_if is None:
-        raise AnalysisError(f"{f.where}: `if memory not in self.current_addresses: <init>` not found")
+    if init is not None:
+        for n in ast.walk(f.node):
+            if isinstance(n, ast.If) and not n.orelse and len(n.body) == 1 and n.body[0] is init.stmt and norm.match(
+                    T("$m not in self.current_addresses"), norm.canon(n.test)) is not None:
+                init_if = n
+        if init_if is None:
+            raise AnalysisError(f"{f.where}: `if memory not in self.current_addresses: <init>` not found")
+    else:
+        assert init_sd is not None
+        init_if = init_sd.stmt
     events = {
         "initialised": lambda st, w=init_if: st is w,
         "stored": lambda st, w=store.stmt: st is w,
@@ -251,8 +261,15 @@ def bump(repo: Repo, chk: Check) -> None:
     ok = ok and same
     chk.result(ok, "C11.bump", f"{f.key}:stored-value", store.where(), "stored bump pointer = aligned address + size of this alloc",
                "the stored bump pointer is not `aligned address + size`")
-    init_ok = norm.match(T("$m.start"), init.node.value) is not None
-    chk.result(init_ok, "C11.bump", f"{f.key}:init-value", init.where(), "the bump pointer starts at memory.start")
+    if init is not None:
+        init_ok = norm.match(T("$m.start"), init.node.value) is not None
+        init_where = init.where()
+    else:
+        assert init_sd is not None
+        m_ = norm.match(T("self.current_addresses.setdefault($m, $v)"), init_sd.node.value)
+        init_ok = m_ is not None and norm.match(T("$x.start"), m_["v"]) is not None and ast.unparse(norm.match(T("$x.start"), m_["v"])["x"]) == ast.unparse(m_["m"])
+        init_where = init_sd.where()
+    chk.result(init_ok, "C11.bump", f"{f.key}:init-value", init_where, "the bump pointer starts at memory.start")
 
 
 def static_size(repo: Repo, chk: Check) -> None:
@@ -379,7 +396,10 @@ def lifetime(repo: Repo, chk: Check) -> None:
         outer = [l for l in s.loops if isinstance(l, ast.For)]
         if outer and norm.match(T("enumerate($f.body.block.ops)"), outer[0].iter) is not None and isinstance(outer[0].target, ast.Tuple):
             iv = outer[0].target.elts[0].id  # type: ignore[attr-defined]
-            oku = oku or (ast.unparse(s.node.value) == iv and bool(has_fact(s, [f"$o in {uses_name}"])))
+            # the buffers whose lifetime is extended are those recorded for this op: `if op in uses: for b in uses[op]` or `for b in uses.get(op, ())`
+            in_table = bool(has_fact(s, [f"$o in {uses_name}"])) or any(
+                isinstance(l, ast.For) and norm.any_match([f"{uses_name}.get($o, ())", f"{uses_name}.get($o, [])", f"{uses_name}[$o]"], l.iter) is not None for l in s.loops)
+            oku = oku or (ast.unparse(s.node.value) == iv and in_table)
     chk.result(oku, "C11.lifetime", f"{f.key}:end-time", upd[0].where() if upd else f.where, "end_time := index of each top-level op that uses the buffer")
     # pointers
     # any table store whose value adds a memory's start address is the pointer hand-out
@@ -399,7 +419,7 @@ def lifetime(repo: Repo, chk: Check) -> None:
         okm = okm or depends_on(sub, "$b[$x.id].memory_space == $m.attribute")
     chk.result(okm, "C11.lifetime", f"{f.key}:per-memory", probs[0].where() if probs else f.where, "each memory space is solved for its own buffers only")
     # replace uses the pointer of this buffer
-    rep = [s for s in fl.calls("from_int_and_width") if s.reachable and s.loops and s.node.args and any(depends_on(s.node.args[0], f"{t}[$b.id]") for t in ptr_tables)]
+    rep = [s for s in fl.calls("from_int_and_width") if s.reachable and s.loops and s.node.args and any(depends_on(s.node.args[0], f"{t}[$b.id]") or depends_on(fl.cone(s.node.args[0], s, inline=0), f"{t}[$b.id]") for t in ptr_tables)]
     chk.result(bool(rep), "C11.lifetime", f"{f.key}:own-pointer", rep[0].where() if rep else f.where, "each alloc is replaced by the pointer computed for its own buffer id")
 
 
